@@ -3,11 +3,47 @@ import drivers.c07  # noqa: F401   (registers the drivers)
 
 PROP = "C07"
 LEVEL = "exploration"
-LEVEL_TEXT = "bounded run-time contracts only"
-LEVEL_NOTE = ""
+LEVEL_TEXT = ("Bounded run-time contracts: every registered gate against an own table of textbook matrices (unitarity for all "
+              "parameter draws), and thousands of random programs on every circuit class, interleaving gate application, "
+              "parameter updates, copies and every query type; each query is compared with the same query evaluated by an "
+              "own dense numpy simulator on the gates recorded so far, and after every accepted or rejected gate the state "
+              "held by the simulator is compared with that reference. Nothing is proved by this part.")
+LEVEL_NOTE = ("Trusted: numpy (tensordot, eigh, qr, Generator) and the own gate table (H, X, Y, Z, S, T, SX, rotations, U1/2/3, "
+              "controlled versions, SWAP, ISWAP, FSIM, FSIMG, GIVENS, RXX/RYY/RZZ, CCX/CCY/CCZ/CSWAP written from their "
+              "textbook definitions; weak facts only for the qsim square roots, GIVENS2, XXPLUSYY, XXMINUSYY; unitarity only "
+              "for SU4 -- for those the registry's own array defines the reference); numpy's Generator.choice(p=) inverting "
+              "the cdf at one uniform draw (self-checked). Tolerances: 1e-8 exact simulators and MPS with cutoff 0, 1e-4 with "
+              "the documented default cutoff 1e-10 / simple update, 2e-4 single precision, x10 for expectation values.")
 TECHNIQUE = "run-time contracts on the real functions vs independent numpy references over a stated bounded domain (bounded stand-in)"
 E1 = []
 PROVIDERS = []
-TRUSTED = ["numpy reference computations"]
-ASSUMPTIONS = []
-EXPLANATION = ""
+TRUSTED = [
+    "numpy reference computations (tensordot / eigh / qr / random Generator)",
+    "own table of textbook gate matrices (see LEVEL_NOTE for the gates that are only weakly specified)",
+    "numpy Generator.choice(n, p=p) consumes one .random() double and inverts the cdf (checked when the driver starts)",
+]
+ASSUMPTIONS = [
+    "programs on 1..6 qubits with <= 14 recorded gates and <= 26 steps; parameters uniform in [-3.5, 3.5] or special angles; "
+    "initial state |0..0> or (20 %) a random MPS of bond 2 / a product MPS",
+    "a gate may be rejected by any exception (counted; incidental exceptions listed separately); after a rejection the "
+    "simulator must still hold the state of the gates recorded (read without the query caches)",
+    "samples are checked by replaying numpy's uniform stream: every drawn outcome must be consistent with the reference "
+    "conditional distribution at the same uniform draw (tolerance 1e-6 double, 2e-3 for complex64 / default-cutoff cases); "
+    "sample_chaotic (unseeded inner draw), sample_gate_by_gate and simulate_counts are checked for support only",
+    "idle wires of circ.uni (no tensor on the wire) are read as the identity",
+    "PEPS simple update: only to_dense is compared (its local_expectation is approximate by design); PEPO: local_expectation "
+    "on one site or one edge; both without truncation",
+    "the harness runs drivers in daemonic workers: cotengra's 'auto' optimizers are kept from spawning a process pool "
+    "(cotengra.parallel._IS_WORKER = True), path search is serial",
+    "program-level risk flags (record_risk, copied_since_gate, quirks, ...) are part of the case parameters so that known "
+    "findings are matched narrowly; they never change which checks are evaluated",
+]
+EXPLANATION = (
+    "Driver gate-vocabulary: every label of ALL_GATES x parameter draws: Gate.array unitary and equal to the textbook "
+    "matrix, Gate.build_mpo (0..2 controls) equal to the controlled matrix. Driver programs-vs-dense-reference: random "
+    "programs over the full vocabulary, raw unitaries, (multi-)controls, all spellings of apply_gate, per-gate contract "
+    "overrides, on Circuit (6 gate_contract settings), CircuitDense, CircuitMPS (3 modes), CircuitPermMPS, CircuitMPSLazy, "
+    "CircuitPEPSSimpleUpdate, CircuitPEPOSimpleUpdate; queries to_dense, amplitude, uni / get_uni(transposed), partial_trace, "
+    "local_expectation (operator lists, simplification / dtype / optimizer options), compute_marginal, sample (qubits, order, "
+    "group_size), a sample generator advanced across apply_gate, sample_chaotic, sample_gate_by_gate, simulate_counts, "
+    "psi.to_dense, copy, get_params / set_params / update_params_from with the same query repeated before and after.")
